@@ -336,13 +336,15 @@ def transfer_details(ctx: Ctx, rule: str) -> None:
     for name, pairs in (("compare_local", (("local_hash", "cache_path"), ("remote_hash", "pool_path"))), ("compare_remote", (("local_hash", "cache_path"),))):
         fn = ctx.repo.func(f"{OPS}.{name}")
         for var, path in pairs:
-            ifs = [i for i in fn.node.body if isinstance(i, ast.If) and any(isinstance(s_, ast.Assign) and ast.unparse(s_.targets[0]) == var for s_ in i.body)]
-            ok = len(ifs) == 1
+            # normal form: var = <hash_file(...)> if os.path.exists(<path>) else ''
+            asg = [s_ for s_ in fn.node.body if isinstance(s_, ast.Assign) and ast.unparse(s_.targets[0]) == var]
+            ok = len(asg) == 1 and isinstance(asg[0].value, ast.IfExp)
             if ok:
-                i = ifs[0]
-                ok = (norm.equivalent(norm.formula(i.test), norm.formula(ast.parse(f"os.path.exists({path})", mode="eval").body))
-                      and len(i.body) == 1 and isinstance(i.body[0].value, ast.Call) and call_name(i.body[0].value) == "hash_file"
-                      and len(i.orelse) == 1 and isinstance(i.orelse[0], ast.Assign) and ast.unparse(i.orelse[0]) == f"{var} = ''")
+                ie = asg[0].value
+                fml = norm.formula(ie.test)
+                ex = norm.formula(ast.parse(f"os.path.exists({path})", mode="eval").body)
+                a_, b_ = (ie.body, ie.orelse) if norm.equivalent(fml, ex) else ((ie.orelse, ie.body) if norm.equivalent(fml, norm.neg(ex)) else (None, None))
+                ok = a_ is not None and isinstance(a_, ast.Call) and call_name(a_) == "hash_file" and isinstance(b_, ast.Constant) and b_.value == ""
             ctx.record(rule + "e", "TABLE", fn.ref, f"{var}: hash of {path} if it exists, else the missing-file marker ''", ok, {},
                        "" if ok else f"{name}: {var} is no longer 'hash if the file exists else \'\'' (a missing file can compare equal to a present one, or an existing one is not read)")
 
